@@ -265,21 +265,26 @@ whitespace, first token, "every whitespace run between two neighbouring tokens/c
 acceptable separator for the second one" (`sepOk`: `""`, `" "`, or one line break / one blank line
 followed by an indentation run; nothing at all in front of `;`), trailing whitespace. -/
 
-/-- SPACING NORMAL FORM. For every well-formed file of the fragment in which no one-line container
+/-- SPACING NORMAL FORM. For every well-formed file of the fragment without parentheses and function
+    calls (`File.basic`: the container part of the fragment — the spacing proof has not been extended
+    to `( e )` / `f x` yet; no counterexample is known there, the decidable conclusion is evaluated on
+    every sample of every run) in which no one-line container
     holds a comment in front of an item (`Src.beforeFlatB`: the items of a container without a line
     break have empty leading trivia; see `cex_block_comment_after_opener`), the rebuilt file has
     no whitespace before its first token, every separator is in the formatter's normal form, `;`
     is attached, and the file ends with at most one blank line. -/
 theorem frag_spacing_nf (f : File) (s : Src) (hwf : f.wf = true) (_hws : f.noLeadingWs = true)
-    (hp : f.parse = .ok s) (hclean : s.beforeFlatB = true) : (summ s.rebuildP).fileOk = true :=
-  file_nf_flat f s hwf hp hclean
+    (hbasic : f.basic = true) (hp : f.parse = .ok s) (hclean : s.beforeFlatB = true) :
+    (summ s.rebuildP).fileOk = true :=
+  file_nf_flat f s hwf hbasic hp hclean
 
 /-- the same with the exclusion as the render-side induction uses it (`inlineCleanB` additionally
     asks that every item's trailing trivia in a one-line container ends with a comment, which
     `Lemmas/FragFlat.lean` proves for everything `fromCst` builds) -/
 theorem frag_spacing_nf_clean (f : File) (s : Src) (hwf : f.wf = true) (_hws : f.noLeadingWs = true)
-    (hp : f.parse = .ok s) (hclean : s.inlineCleanB = true) : (summ s.rebuildP).fileOk = true :=
-  file_nf f s hwf hp (src_inlineClean hclean)
+    (hbasic : f.basic = true) (hp : f.parse = .ok s) (hclean : s.inlineCleanB = true) :
+    (summ s.rebuildP).fileOk = true :=
+  file_nf f s hwf hbasic hp (src_inlineClean hclean)
 
 /-- what `fileOk` says, in terms of the pieces: for any two neighbouring tokens/comments `p`, `q`
     of the output with only whitespace pieces `W` between them, `concat W` is a `NormalSep`, and it
@@ -339,6 +344,34 @@ example : openerCommentFile.flatten = "{ /* c */ a = 1; }".toList := by decide
 example : openerCommentFile.roundtrip = .ok "{   /* c */\na = 1; }".toList := by decide
 example : (match openerCommentFile.parse with | .ok s => s.beforeFlatB | _ => true) = false := by decide
 
+/-- the spacing statement for the GROWN fragment (parentheses, calls) under the container exclusion
+    alone (`beforeFlatG`: `beforeFlatB` carried through parentheses and calls) — false -/
+def frag_spacing_nf_grown_full : Prop :=
+  ∀ (f : File) (s : Src), f.wf = true → f.noLeadingWs = true → f.parse = .ok s → s.beforeFlatG = true →
+    (summ s.rebuildP).fileOk = true
+
+/-- `[⏎  ( /* c */ x)⏎]`: the comment after `(` becomes leading trivia of the value, the parenthesis
+    stays on one line, and the value is rendered `inline` after the own-line rendering of the comment
+    at the parenthesis' indentation: `(  /* c */⏎x)` — an indentation run after `(`, the value at
+    column 0 (open finding `C18-spacing-space-run-parenthesized_expression`, the parenthesis analogue
+    of `cex_block_comment_after_opener`; `expressions/parenthesis.py: rebuild` renders
+    `value.rebuild(indent, inline=True)` and `add_trivia` writes `format_trivia(before, indent)`).
+    An extension of `frag_spacing_nf` to parentheses needs the exclusion "the value of a parenthesis
+    whose leading gap has no line break has no leading trivia". -/
+def parenCommentFile : File :=
+  { items := .elem [] (.list (.elem "\n  ".toList (.paren (.cmt " ".toList "/* c */".toList
+      (.elem " ".toList (.leaf .ident "x".toList) .nil)) []) .nil) "\n".toList) .nil,
+    endGap := [] }
+
+theorem cex_comment_after_open_paren : ¬ frag_spacing_nf_grown_full := by
+  intro h
+  have := h parenCommentFile _ (by decide) (by decide) rfl (by decide)
+  revert this; decide
+
+example : parenCommentFile.flatten = "[\n  ( /* c */ x)\n]".toList := by decide
+example : parenCommentFile.roundtrip = .ok "[\n  (  /* c */\nx)\n]".toList := by decide
+example : parenCommentFile.basic = false := by decide
+
 /-- a file with comments in many gaps that satisfies the hypotheses -/
 def fragSample : File :=
   { items := .cmt [] "# h".toList (.elem "\n\n\n".toList
@@ -348,7 +381,7 @@ def fragSample : File :=
     endGap := "\n\n\n".toList }
 
 example : fragSample.flatten = "# h\n\n\n{\n\ta /* n */  =\n\n      [ 1\t] ; # e\n\n\n# o\n\n\n}\n\n\n".toList := by decide
-example : fragSample.wf = true ∧ fragSample.noLeadingWs = true := by decide
+example : fragSample.wf = true ∧ fragSample.noLeadingWs = true ∧ fragSample.basic = true := by decide
 example : (match fragSample.parse with | .ok s => s.beforeFlatB | _ => false) = true := by decide
 example : fragSample.roundtrip = .ok "# h\n\n{\n  a =\n      /* n */\n\n      [ 1 ]; # e\n\n  # o\n\n}\n\n".toList := by decide
 
